@@ -43,6 +43,7 @@ pub fn drive(t: &mut Tracer, r: &mut Rng, n: usize) {
                         let mut st = json!({"largest": lg, "smallest": sm, "inc": inc, "mode": *r.pick(&MODES[..])});
                         if r.chance(1, 5) { st.as_object_mut().unwrap().remove("largest"); }
                         t.call(op, json!({"zone": zone, "t": cur, "other": other, "st": st}));
+                    } else if r.chance(1, 6) { t.call(op, json!({"zone": zone, "t": cur, "other": other, "oz": *r.pick(&["+03:00", "-09:30", "+00:00"]), "st": {"largest": *r.pick(&lgs)}}));
                     } else { t.call(op, json!({"zone": zone, "t": cur, "other": other, "st": {"largest": *r.pick(&lgs)}})); } }
                 7 => { if r.chance(1, 2) { t.call("Zoned.startOfDay", json!({"zone": zone, "t": cur})); }
                        else { let sod = if r.chance(1, 3) { *r.pick(&[0i64, 1800, 3600, 7200, 9000, 10800, 86_399][..]) } else { r.range(0, 86_399) };
